@@ -178,7 +178,7 @@ func uArg(c *Cmd) string {
 	return ""
 }
 
-func buildSpanIndex(f *File) *spanIndex {
+func buildSpanIndex(f *File, sw map[string]string) *spanIndex {
 	x := &spanIndex{cmd: map[string]int{}, opnd: map[string]int{}, autoOp: map[string]int{}, swVar: map[string]int{}, caseV: map[string]int{}, item: map[string]int{}, step: map[string]int{}, row: map[string]int{}, entry: map[string]int{}, label: map[string]int{}, text: map[string]int{}}
 	var doSteps func(st []*Step)
 	doSteps = func(st []*Step) {
@@ -235,8 +235,13 @@ func buildSpanIndex(f *File) *spanIndex {
 				doBlock(s.Do.Body)
 				doExpr(s.Do.Cond)
 			case "ps":
-				for _, c := range s.PS.Cases {
-					doBlock(c.Body)
+				// only the selected case reaches the output (a label may be written in several cases)
+				keys := make([]string, len(s.PS.Cases))
+				for i, c := range s.PS.Cases {
+					keys[i] = c.Key
+				}
+				if i := selectKey(keys, sw[s.PS.Var]); i >= 0 {
+					doBlock(s.PS.Cases[i].Body)
 				}
 			case "switch":
 				if s.Switch.Auto != nil {
@@ -333,7 +338,7 @@ func checkC16(c *C16Case) *Violation {
 			}
 			continue
 		}
-		x := buildSpanIndex(c.File)
+		x := buildSpanIndex(c.File, c.Switches)
 		bind, _ := ComputeBinding(c.File, RepoFonts(), "", 0) // (files with poryswitch: labels of hoisted data are then not attributed, see below)
 		// owner of every hoisted label: the first argument bound to it
 		hoistOwnerCmd := map[string]int{}
